@@ -348,7 +348,7 @@ fn apply_ops(o: &mut Opened, root: &Path, h: &mut Hist, ops: &[Op]) {
                             kind: EventKind::ContinuityCompactionCheckpointCreated {
                                 checkpoint_id: uuid::Uuid::new_v4().to_string(),
                                 cut_rule_id: "manual_v1".into(),
-                                summary_kind: if *cumulative { CUMULATIVE.into() } else { "delta_v0".into() },
+                                summary_kind: if *cumulative { CUMULATIVE.into() } else { "bulk_v0".into() },
                                 summary_artifact_id: match (&real_artifact, *cumulative) {
                                     (Some(a), true) => a.clone(),
                                     _ => format!("bulk-artifact-{seq}"),
@@ -685,7 +685,24 @@ fn spec_bundle(a: &Abs, runs: &[RunRec], anchor: &str, limit: usize, max_refs: u
             }
         }
     }
-    Some(json!({"strategy": strategy, "from_seq": cut, "from_message_id": anchor, "items": items, "checkpoints": chosen.iter().map(|c| by_to[c].1.clone()).collect::<Vec<_>>()}))
+    // the decision's cause; with no supported checkpoint in sight, the latest visible checkpoint of ANY kind (largest
+    // to_seq, on a tie the later frame) decides it, and the reset names the kind that was ignored
+    let mut latest_any: Option<(u64, String)> = None;
+    for e in t.iter().filter(|e| e.seq <= cut || !frame_at_or_before_cut) {
+        if let EventKind::ContinuityCompactionCheckpointCreated { summary_kind, to_seq, .. } = &e.kind {
+            if *to_seq <= cut && latest_any.as_ref().map(|(b, _)| *to_seq >= *b).unwrap_or(true) {
+                latest_any = Some((*to_seq, summary_kind.clone()));
+            }
+        }
+    }
+    let (cause, reset_kinds): (&str, Vec<String>) = match (chosen.len(), &latest_any) {
+        (0, None) => ("no_compaction_checkpoint", vec![]),
+        (0, Some((_, k))) if k == CUMULATIVE => ("no_supported_compaction_checkpoint", vec![]),
+        (0, Some((_, k))) => ("unsupported_compaction_summary_kind", vec![k.clone()]),
+        (1, _) => ("compaction_checkpoint", vec![]),
+        _ => ("compaction_checkpoint_hierarchy", vec![]),
+    };
+    Some(json!({"strategy": strategy, "from_seq": cut, "from_message_id": anchor, "items": items, "checkpoints": chosen.iter().map(|c| by_to[c].1.clone()).collect::<Vec<_>>(), "cause": cause, "reset_kinds": reset_kinds}))
 }
 /// the same view of what the implementation produced
 fn view_of(out: &Out) -> Option<Value> {
@@ -696,6 +713,8 @@ fn view_of(out: &Out) -> Option<Value> {
         "from_message_id": bundle["source"]["from_message_id"],
         "items": bundle["items"],
         "checkpoints": decision["compaction_checkpoints"].as_array().map(|v| v.iter().map(|c| c["checkpoint_id"].clone()).collect::<Vec<_>>()).unwrap_or_default(),
+        "cause": decision["reason"]["cause"],
+        "reset_kinds": decision["resets"].as_array().map(|v| v.iter().map(|r| r["ref"]["summary_kind"].clone()).collect::<Vec<_>>()).unwrap_or_default(),
     }))
 }
 /// internal consistency of one outcome (decision vs bundle vs returned cut)
@@ -940,11 +959,12 @@ fn flood_cases() -> Vec<Case> {
         sweep: 0,
         flood: true,
     };
-    // unsupported-kind flood: hierarchy empty, the `latest` lookup must not stop at the newest 10 000 frames: the old
-    // unsupported checkpoint at or before the cut decides cause and reset
+    // unsupported-kind flood: hierarchy empty, the `latest` lookup must not stop at the newest 10 000 frames: the OLD
+    // unsupported checkpoint (kind delta_v0, the larger to_seq) is the latest one, not a frame of the flood (kind bulk_v0,
+    // smaller to_seq): the decision's reset names the kind it ignored
     let b = Case {
-        ops: vec![Op::Msg { size: 5 }, Op::Msg { size: 5 }, Op::ForeignCheckpoint { msg: 0 }, Op::Msg { size: 5 }, Op::Msg { size: 5 }, Op::Msg { size: 5 }, Op::BulkCheckpoints { n, msg: 3, cumulative: false }, Op::Msg { size: 5 }],
-        anchors: vec![Anchor::Msg(1), Anchor::Msg(0), Anchor::Last],
+        ops: vec![Op::Msg { size: 5 }, Op::Msg { size: 5 }, Op::Msg { size: 5 }, Op::Msg { size: 5 }, Op::ForeignCheckpoint { msg: 3 }, Op::Msg { size: 5 }, Op::BulkCheckpoints { n, msg: 0, cumulative: false }, Op::Msg { size: 5 }],
+        anchors: vec![Anchor::Last, Anchor::Msg(3), Anchor::Msg(1)],
         later: vec![Op::SideFx],
         faults: vec![(Target::Comp, FaultKind::Delete)],
         big: true,
@@ -1245,7 +1265,7 @@ fn judge(case: &Case, out: &CaseOut, limit: usize, max_refs: usize, checks: &mut
 /// S9 and nothing else: the decision names a checkpoint whose own frame lies after the cut AND the outcome is
 /// exactly the truth re-computation with the visibility rule `to_seq <= cut` (any further deviation keeps `other`)
 fn s9_class(a: &Abs, runs: &[RunRec], anchor: &str, out: &Out, limit: usize, max_refs: usize, other: &str) -> String {
-    if selected_checkpoint_after_cut(a, out) && view_of(out) == spec_bundle(a, runs, anchor, limit, max_refs, false) {
+    if (selected_checkpoint_after_cut(a, out) || ignored_checkpoint_after_cut(a, out)) && view_of(out) == spec_bundle(a, runs, anchor, limit, max_refs, false) {
         "checkpoint_after_cut_selected".to_string()
     } else {
         other.to_string()
@@ -1255,6 +1275,13 @@ fn s9_class(a: &Abs, runs: &[RunRec], anchor: &str, out: &Out, limit: usize, max
 fn selected_checkpoint_after_cut(a: &Abs, out: &Out) -> bool {
     let Out::Ok { decision, from_seq, .. } = out else { return false };
     decision["compaction_checkpoints"].as_array().map(|v| v.iter().any(|c| a.seq_of_ckpt.get(c["checkpoint_id"].as_str().unwrap_or("")).map(|s| s > from_seq).unwrap_or(false))).unwrap_or(false)
+}
+/// the same rule seen through an unsupported kind: the decision ignored a checkpoint of a kind (reset
+/// `unsupported_summary_kind`) of which no frame with to_seq at or before the cut lies at or before the cut
+fn ignored_checkpoint_after_cut(a: &Abs, out: &Out) -> bool {
+    let Out::Ok { decision, from_seq, .. } = out else { return false };
+    let Some(kind) = decision["resets"].as_array().and_then(|v| v.first()).and_then(|r| r["ref"]["summary_kind"].as_str()) else { return false };
+    !a.truth.iter().any(|e| matches!(&e.kind, EventKind::ContinuityCompactionCheckpointCreated { summary_kind, to_seq, .. } if summary_kind == kind && to_seq <= from_seq && e.seq <= *from_seq))
 }
 /// one-line view of an outcome: cut, strategy, items (s = summary ref, uN = user message at seq N, a = reply)
 fn brief(o: &Out) -> String {
@@ -1269,7 +1296,7 @@ fn brief(o: &Out) -> String {
 /// the same for a `view_of` / `spec_bundle` value
 fn brief_view(v: &Value) -> String {
     let items: Vec<String> = v["items"].as_array().map(|x| x.iter().map(|i| if i["type"] == "summary_ref" { "s".to_string() } else if i["role"] == "user" { format!("u{}", i["thread_seq"]) } else { "a".to_string() }).collect()).unwrap_or_default();
-    format!("from_seq={} strategy={} checkpoints={} items=[{}]", v["from_seq"], v["strategy"].as_str().unwrap_or("?"), v["checkpoints"].as_array().map(|x| x.len()).unwrap_or(0), items.join(","))
+    format!("from_seq={} strategy={} cause={} resets={} checkpoints={} items=[{}]", v["from_seq"], v["strategy"].as_str().unwrap_or("?"), v["cause"].as_str().unwrap_or("?"), v["reset_kinds"], v["checkpoints"].as_array().map(|x| x.len()).unwrap_or(0), items.join(","))
 }
 fn short(s: &str) -> String {
     if s.len() > 400 {
@@ -1567,6 +1594,15 @@ fn main() {
                 }
             }
             ids_of_anchor.push(ids);
+        }
+        if std::env::var_os("RV_C08_DUMP").is_some() {
+            // debugging aid for replays: every outcome of every anchor, one line each
+            for c in &out.compiled {
+                eprintln!("anchor {:?} caches_as_found => {}", c.anchor, c.baseline.canon());
+                for (l, o) in &c.others {
+                    eprintln!("anchor {:?} {l} => {}", c.anchor, o.canon());
+                }
+            }
         }
         // ---- independent oracle
         let viol = judge(case, &out, limit, max_refs, &mut res.oracle_checks);
